@@ -9,6 +9,7 @@
 From CAres.Base Require Import CInt.
 From CAres.Core Require Import Cookie CookieSpec Cookie_proofs.
 From CAres.Gen Require Import Consts LeafFns.
+From CAres.Core Require Accept Accept_proofs CookieAccept_proofs.
 
 (* the generated time predicates mean what the constants' comments say (exact, in microseconds) *)
 Theorem C17_timeval_expired_exact : forall t now ms,
@@ -153,3 +154,26 @@ Theorem C17_client_stable_unknown_source_refuted :
   exists evs, Forall wf_event_any evs /\ run sys_init ghost_init evs = Ok [V_client_unstable].
 Proof. exact unspec_refuted. Qed.
 Print Assumptions C17_client_stable_unknown_source_refuted.
+
+(* ORDER of the checks in process_answer() (model: Core/Accept.v): a reply that fails the cookie checks
+   is inert - no output (callback, cache insertion, server state), and apart from the server's cookie
+   record the channel is unchanged: the query keeps its OPT RR and cookie, stays on its connection, is
+   not re-sent.  Holds for every rcode and with or without an OPT RR in the reply, i.e. the
+   "server may not understand EDNS" fallback cannot run before ares_cookie_validate(). *)
+Theorem C17_cookie_drop_is_inert : forall cfg st cn sv s u p st' outs,
+  (forall q, Accept.find_query st (Accept.p_id p) = Some q -> Accept.cookie_ok (Accept.sv_cookie sv) q p = false) ->
+  Accept.process_answer cfg st cn sv s u (Accept.DParsed p) = Ok (st', outs) ->
+  outs = [] /\ Accept_proofs.same_but_cookies st' st.
+Proof. exact CookieAccept_proofs.cookie_drop_is_inert. Qed.
+Print Assumptions C17_cookie_drop_is_inert.
+
+(* no cookie downgrade: server state SUPPORTED, request carried a cookie, reply without server cookie *)
+Theorem C17_no_cookie_downgrade : forall cfg st cn sv s u p st' outs,
+  Accept.ck_state (Accept.sv_cookie sv) = C05_COOKIE_SUPPORTED ->
+  (forall q, Accept.find_query st (Accept.p_id p) = Some q -> exists rc, Accept.q_cookie q = Some rc) ->
+  (Accept.p_cookie p = None \/
+   (exists pc, Accept.p_cookie p = Some pc /\ (Accept.zlen pc <= 8)%Z /\ Accept.p_rcode p <> ARES_RCODE_BADCOOKIE)) ->
+  Accept.process_answer cfg st cn sv s u (Accept.DParsed p) = Ok (st', outs) ->
+  outs = [] /\ Accept_proofs.same_but_cookies st' st.
+Proof. exact CookieAccept_proofs.no_cookie_downgrade. Qed.
+Print Assumptions C17_no_cookie_downgrade.
